@@ -148,9 +148,16 @@ func (m *Monitor) doRespConnBind(r *mReq, msg *stun.Message, ok bool, code int, 
 		a, t = m.findTCPByCID(cid)
 	}
 	if !ok {
+		if t != nil && r.Auth > 0 && r.User != a.User {
+			t.ForeignTried = true // refused, as it must be - and it must have changed nothing
+		}
 		if t != nil && r.Auth > 0 && r.User == a.User && !t.Bound && !t.Closed && t.Created.Lo+bindTimeoutNS > I.Hi+1 &&
 			m.M.DefinitelyAlive(a, I.Lo, I.Hi) && len(m.K.StallIntervals()) == 0 && !m.serverClosed && !t.peerGone() {
-			m.v([]string{"C16"}, "valid-bind-rejected", kv("code", itoa(code)), "ConnectionBind of pending connection %d, %d ns after it was made, by its owner answered %d", cid, I.Lo-t.Created.Hi, code)
+			props := []string{"C16"}
+			if t.ForeignTried {
+				props = append(props, "C03") // another user's refused request took effect
+			}
+			m.v(props, "valid-bind-rejected", kv("code", itoa(code)), "ConnectionBind of pending connection %d, %d ns after it was made, by its owner answered %d (another user's bind was refused before: %v)", cid, I.Lo-t.Created.Hi, code, t.ForeignTried)
 		}
 		return
 	}
